@@ -16,6 +16,7 @@ import (
 	"github.com/criyle/go-sandbox/pkg/forkexec"
 	"github.com/criyle/go-sandbox/pkg/mount"
 	"github.com/criyle/go-sandbox/pkg/rlimit"
+	"github.com/criyle/go-sandbox/pkg/unixsocket"
 	"github.com/criyle/go-sandbox/runner"
 	"github.com/criyle/go-sandbox/runner/ptrace"
 	"github.com/criyle/go-sandbox/runner/unshare"
@@ -255,6 +256,33 @@ func c12ops(tier string) []c12op {
 			return fmt.Sprint(c.Destroy())
 		}},
 	)
+	// descriptor shortage: exactly k descriptor numbers are free while the operation runs, so that it fails at its first,
+	// second, … descriptor-creating step; whatever was created up to there must be given back
+	for k := 0; k <= 4; k++ {
+		k := k
+		ops = append(ops,
+			c12op{fmt.Sprintf("socket-pair(%d free descriptor numbers)", k), func(e *c12env, nonce string) string {
+				restore := fdShortage(k)
+				a, b, err := unixsocket.NewSocketPair()
+				restore()
+				if err == nil {
+					a.Close()
+					b.Close()
+				}
+				return fmt.Sprint(err != nil)
+			}},
+			c12op{fmt.Sprintf("build-another-environment(%d free descriptor numbers)", k), func(e *c12env, nonce string) string {
+				root := tmpDir("croot")
+				b := &container.Builder{Root: root, Mounts: defaultContainerMounts()}
+				restore := fdShortage(k)
+				c, err := b.Build()
+				restore()
+				if err == nil {
+					c.Destroy()
+				}
+				return fmt.Sprint(err != nil)
+			}})
+	}
 	// environments whose socket fails before Destroy is called
 	ops = append(ops,
 		c12op{"build-fails(init exits at once)", func(e *c12env, nonce string) string {
